@@ -27,11 +27,13 @@ class Ans:
         self.LN = None; self.Y = None; self.B = ""
         self.steps = []      # (status, complete, srcmask, repmask)
         self.F = None
-        self.E = None; self.CB = []; self.RO = None; self.LK = None
+        self.E = None; self.CB = []; self.RO = None; self.LK = None; self.PM = None
         if self.crash:
             return
         for tok in line.split()[1:]:
-            if tok.startswith("P"):
+            if tok.startswith("PM"):
+                self.PM = tok[2:]
+            elif tok.startswith("P"):
                 self.P = int(tok[1:])
             elif tok.startswith("H"):
                 dims, rows = tok[1:].split(":", 1)
